@@ -456,6 +456,8 @@ def check_no_early_exit(idx: Index, rep: Report) -> None:
         for w in walk_local(fn):
             if not isinstance(w, (ast.For, ast.While)):
                 continue
+            if isinstance(w, ast.For) and re.fullmatch(r"[\w.]+\.options", unparse(w.iter)):
+                continue  # a search for the option that selects the verifier, not a loop over what is verified
             inst = f"{f.fq}:loop@{unparse(w.iter)[:30] if isinstance(w, ast.For) else 'while'}"
             exits = []
             stack = list(w.body)
